@@ -24,6 +24,8 @@ S1 = """<?xml version="1.0"?>
 # S2 and S3 both declare a key named k (different use) and have a level="any" xsl:number as their first xsl:number
 # (different count patterns): a key table or counter surviving a run is observable when the same parsed source
 # is transformed by the other stylesheet.
+# With $p = 'stop' and source D2 (an item with n=8) S2 terminates inside nested attribute sets (the element recursion
+# stack is not empty then); with D1 it terminates deeper, in the mode-m template.
 # fails (when $p = 'stop') inside: template(mode m) <- apply-templates <- attribute <- element <- variable (RTF)
 # <- for-each (sorted) <- call-template with-param <- for-each <- literal element; otherwise succeeds.
 S2 = """<?xml version="1.0"?>
@@ -33,6 +35,7 @@ S2 = """<?xml version="1.0"?>
 <xsl:variable name="g" select="count(/doc/item)"/>
 <xsl:key name="k" match="item" use="string-length(.)"/>
 <xsl:attribute-set name="as"><xsl:attribute name="cnt"><xsl:value-of select="$g"/></xsl:attribute></xsl:attribute-set>
+<xsl:attribute-set name="as2" use-attribute-sets="as"><xsl:attribute name="b"><xsl:apply-templates select="." mode="m2"/></xsl:attribute></xsl:attribute-set>
 <xsl:template match="/">
 <r p="{$p}" xsl:use-attribute-sets="as">
 <xsl:for-each select="doc/item">
@@ -48,7 +51,7 @@ S2 = """<?xml version="1.0"?>
 <xsl:for-each select="../item[@n &lt;= $x]">
 <xsl:sort select="." order="descending"/>
 <xsl:variable name="w"><x><xsl:value-of select="."/></x><xsl:comment>c</xsl:comment></xsl:variable>
-<xsl:element name="e{$pos}">
+<xsl:element name="e{$pos}" use-attribute-sets="as2">
 <xsl:attribute name="a"><xsl:value-of select="$w"/>-<xsl:apply-templates select="." mode="m"><xsl:with-param name="pos" select="$pos"/></xsl:apply-templates></xsl:attribute>
 <xsl:copy-of select="$w"/>
 </xsl:element>
@@ -59,6 +62,10 @@ S2 = """<?xml version="1.0"?>
 <xsl:variable name="z" select="string(@n)"/>
 <xsl:if test="$p = 'stop' and $pos = 2 and position() = last()"><xsl:message terminate="yes">halt at <xsl:value-of select="$z"/></xsl:message></xsl:if>
 <xsl:value-of select="concat($z, '/', $pos, '/')"/><xsl:number level="any" count="item[@n &gt; 1]" format="A"/>/<xsl:value-of select="count(key('k', 1))"/>
+</xsl:template>
+<xsl:template match="item" mode="m2">
+<xsl:if test="$p = 'stop' and @n = 8"><xsl:message terminate="yes">halt inside an attribute set</xsl:message></xsl:if>
+<xsl:value-of select="@n"/>
 </xsl:template>
 <xsl:template match="item"><bad-mode/></xsl:template>
 </xsl:stylesheet>
